@@ -61,18 +61,21 @@ type drv struct {
 	prog                               int64 // progress counter for the watchdog
 
 	// fault injection (c08)
-	plan       *faultPlan
-	matchSeen  int
-	injected   int
-	healed     bool
-	dirty      bool // a fault was injected since the last successful open
-	opCount    map[string]int
-	afterFault int
-	summary    func() map[string]interface{}
-	known      map[int64]bool
-	kmu        sync.Mutex
-	installs   int
-	fmu        sync.Mutex
+	plan         *faultPlan
+	matchSeen    int
+	injected     int
+	healed       bool
+	dirty        bool // a fault was injected since the last successful open
+	opCount      map[string]int
+	afterFault   int
+	failedWrites int
+	postHeal     bool
+	lastKeys     []int
+	summary      func() map[string]interface{}
+	known        map[int64]bool
+	kmu          sync.Mutex
+	installs     int
+	fmu          sync.Mutex
 }
 
 // faultPlan: fail the idx-th .. (idx+count-1)-th operation of (kind, file type); count 0 = until healed.
@@ -282,6 +285,20 @@ func b2i(b bool) int {
 	return 0
 }
 
+func (d *drv) noteWrite(ops []wop, err error) {
+	if err != nil {
+		d.stats["writefail"]++
+		d.lastKeys = d.lastKeys[:0]
+		seen := map[int]bool{}
+		for _, o := range ops {
+			if !seen[o.k] {
+				seen[o.k] = true
+				d.lastKeys = append(d.lastKeys, o.k)
+			}
+		}
+	}
+}
+
 func (d *drv) emit(e vt.Ev) {
 	atomic.AddInt64(&d.prog, 1)
 	d.calls++
@@ -388,11 +405,13 @@ func (d *drv) doPutDel() {
 	kb := d.arg(d.key(o.k))
 	if o.v == 0 {
 		err = d.db.Delete(kb.cur, d.wo())
+		d.noteWrite(ops, err)
 		d.emit(vt.Ev{"ev": "write", "ops": opsJSON(ops), "err": d.ename(err), "api": "delete"})
 		d.after("delete", kb)
 	} else {
 		vb := d.arg(o.val)
 		err = d.db.Put(kb.cur, vb.cur, d.wo())
+		d.noteWrite(ops, err)
 		d.emit(vt.Ev{"ev": "write", "ops": opsJSON(ops), "err": d.ename(err), "api": "put"})
 		d.after("put", kb, vb)
 	}
@@ -423,6 +442,7 @@ func (d *drv) doBatch() {
 	d.fillBatch(b, ops)
 	dump := append([]byte(nil), b.Dump()...)
 	err := d.db.Write(b, d.wo())
+	d.noteWrite(ops, err)
 	d.emit(vt.Ev{"ev": "write", "ops": opsJSON(ops), "err": d.ename(err), "api": "write", "big": b2i(big)})
 	if d.poison {
 		// Write must not modify the batch, and must not keep it.
@@ -1034,9 +1054,13 @@ func (d *drv) stepC18() {
 
 func (d *drv) stepC08() {
 	n := d.u.N()
-	if d.injected > 0 && !d.healed {
+	d.fmu.Lock()
+	inj, healed := d.injected, d.healed
+	d.fmu.Unlock()
+	if inj > 0 && !d.postHeal {
 		d.afterFault++
-		if d.afterFault > 4+d.rng.Intn(6) {
+		if healed || d.afterFault > 4+d.rng.Intn(6) || d.failedWrites >= 6 {
+			d.postHeal = true
 			// the failures stop; the DB must go on serving (or fail fast), and a reopen must lose nothing acknowledged
 			d.heal("healed")
 			for i := 0; i < 3+d.rng.Intn(4); i++ {
@@ -1328,11 +1352,19 @@ func (d *drv) stepLSM() {
 // ---- the programs ----
 
 func (d *drv) writeSome() {
+	before := d.stats["writefail"]
 	switch d.rng.Intn(3) {
 	case 0:
 		d.doBatch()
 	default:
 		d.doPutDel()
+	}
+	if d.mode == "c08" && d.stats["writefail"] > before {
+		// decide at once whether the failed write took effect now (keeps the validator's branching small)
+		for _, k := range d.lastKeys {
+			d.doGet(k)
+		}
+		d.failedWrites++
 	}
 }
 
